@@ -136,26 +136,6 @@ theorem typed_plain_list_counterexample : ¬ typed_plain_list_goal := by
 def reencode (cext : Bool) (fuel : Nat) (bs : Bytes) : Option Bytes :=
   (rawFromCbor cext fuel bs).map rawToCbor
 
-theorem rawFromPrimitive_primOf (cext : Bool) (d : PData) (hc : chunkFree d = true) (ht : topOk cext d = true) :
-    rawFromPrimitive (primOf (!cext) d) = some (primOf (!cext) d) := by
-  cases d with
-  | constr c fs =>
-    simp only [primOf, primConstr]
-    cases getTag c <;> rfl
-  | list xs =>
-    simp only [topOk, Bool.and_eq_true, Bool.not_eq_true'] at ht
-    obtain ⟨h1, h2⟩ := ht
-    subst h1
-    cases xs with
-    | nil => simp at h2
-    | cons x xs => simp [primOf, primOfList, primSeq, rawFromPrimitive]
-  | map kvs => rfl
-  | int i => rfl
-  | bytes b =>
-    simp only [chunkFree, decide_eq_true_eq] at hc
-    have : ¬ b.length > 64 := by omega
-    simp [primOf, primBytes, this, rawFromPrimitive]
-
 /-- decoding the canonical item gives back exactly the object tree of the matching construction style: explicit
 `IndefiniteList`s with the patched pure-Python decoder, plain lists with the C extension -/
 theorem decode_spec_item (cext : Bool) (d : PData) (hc : chunkFree d = true) (hk : keysOk d = true) :
@@ -204,6 +184,14 @@ theorem decode_dupkey_counterexample : ¬ decode_dupkey_goal := by
   intro h
   have := h (.map [(.int 1, .int 2), (.int 1, .int 3)]) 8 (by decide) (by decide) (by decide)
   revert this
+  decide
+
+/-- the top-level object: `from_primitive` refuses a plain list, so the canonical empty list `80` cannot be decoded,
+and with the C extension (where every list arrives plain) no top-level list can -/
+theorem toplevel_list_refused :
+    reencode false 8 (specBytesOf (.list [])) = none ∧
+    reencode true 8 (specBytesOf (.list [.int 1])) = none ∧
+    reencode false 8 (specBytesOf (.list [.int 1])) = some (specBytesOf (.list [.int 1])) := by
   decide
 
 /-! ## the JSON route -/
@@ -332,11 +320,11 @@ end Pyc.C18
 #print axioms Pyc.C18.plutus_conforms_bytes
 #print axioms Pyc.C18.plutus_conforms_counterexample
 #print axioms Pyc.C18.typed_plain_list_counterexample
-#print axioms Pyc.C18.rawFromPrimitive_primOf
 #print axioms Pyc.C18.decode_spec_item
 #print axioms Pyc.C18.decode_spec_roundtrip_partial
 #print axioms Pyc.C18.decode_spec_roundtrip_counterexample
 #print axioms Pyc.C18.decode_dupkey_counterexample
+#print axioms Pyc.C18.toplevel_list_refused
 #print axioms Pyc.C18.to_dict_faithful
 #print axioms Pyc.C18.json_roundtrip_partial
 #print axioms Pyc.C18.json_roundtrip_counterexample
